@@ -9,6 +9,7 @@ import (
 	"fmt"
 	"os"
 	"path/filepath"
+	"reflect"
 	"regexp"
 	"sync/atomic"
 	"time"
@@ -43,10 +44,18 @@ function WEC(o, k){
 function PROPS(r){
   return [r.global, r.ignoreCase, r.multiline, r.lastIndex].concat(WEC(r, "source"), WEC(r, "global"), WEC(r, "ignoreCase"), WEC(r, "multiline"), WEC(r, "lastIndex"));
 }
+// G runs a case inside an inner try so that a Go run-time panic that is not
+// convertible to a JavaScript value (a struct such as runtime.boundsError)
+// surfaces as a catchable exception of the OUTER try in RUN - an outcome that
+// is compared with the expectation - instead of aborting the batch as a
+// harness error; conforming results pass through unchanged.
+function G(f){ try { return f(); } finally { } }
 // exec on each subject from lastIndex 0: [[result, lastIndex after], ...]
 function EXECALL(r, ss){
   var out = [];
-  for (var i = 0; i < ss.length; i++) { r.lastIndex = 0; var x = r.exec(ss[i]); out.push([x, r.lastIndex]); }
+  try {
+    for (var i = 0; i < ss.length; i++) { r.lastIndex = 0; var x = r.exec(ss[i]); out.push([x, r.lastIndex]); }
+  } finally { }
   return out;
 }
 // "ok" or the class name of the error the construction raises
@@ -83,7 +92,7 @@ func families() []string {
 		json.Unmarshal([]byte(f), &r)
 		return r
 	}
-	return []string{"syntax", "esc", "f1", "f2", "f3", "f4", "f5", "f6", "strm", "bytes", "hist", "xlate", "judge"}
+	return []string{"syntax", "esc", "f1", "f2", "f3", "f4", "f5", "f6", "strm", "repl", "bytes", "hist", "xlate", "judge"}
 }
 
 func genFamilies() []string {
@@ -96,10 +105,59 @@ func genFamilies() []string {
 	return r
 }
 
+// sameOutcome is deep equality of the observed and the expected outcome with one
+// extension: where the specification expects {t:"frame", pre, suf} (a string some
+// part of which ES5 leaves implementation-defined, 15.5.4.11 Table 22) any
+// observed string that starts with pre and ends with suf, without overlap, agrees.
+func sameOutcome(got, want any) bool {
+	switch w := want.(type) {
+	case map[string]any:
+		g, ok := got.(map[string]any)
+		if !ok {
+			return false
+		}
+		if w["t"] == "frame" {
+			if g["t"] != "str" {
+				return false
+			}
+			s, _ := g["s"].([]any)
+			pre, _ := w["pre"].([]any)
+			suf, _ := w["suf"].([]any)
+			if len(s) < len(pre)+len(suf) {
+				return false
+			}
+			return reflect.DeepEqual(s[:len(pre)], pre) && reflect.DeepEqual(s[len(s)-len(suf):], suf)
+		}
+		if len(g) != len(w) {
+			return false
+		}
+		for k, wv := range w {
+			gv, ok := g[k]
+			if !ok || !sameOutcome(gv, wv) {
+				return false
+			}
+		}
+		return true
+	case []any:
+		g, ok := got.([]any)
+		if !ok || len(g) != len(w) {
+			return false
+		}
+		for i := range w {
+			if !sameOutcome(g[i], w[i]) {
+				return false
+			}
+		}
+		return true
+	}
+	return reflect.DeepEqual(got, want)
+}
+
 var Spec = &gen.Spec{
 	Module:  "C10",
 	Prelude: Prelude,
 	PerVM:   50,
+	Compare: sameOutcome,
 	Runs: func(c *core.Ctx) []gen.RunCfg {
 		fams := genFamilies()
 		if len(fams) == 0 {
@@ -200,6 +258,7 @@ func unitsToRunes(u []int) []rune {
 var SpecH = &gen.Spec{
 	Module:  "C10H",
 	Prelude: Prelude,
+	Compare: sameOutcome,
 	PerVM:   1, // every transition is replayed on a fresh runtime
 	Runs: func(c *core.Ctx) []gen.RunCfg {
 		depth := 3
